@@ -193,7 +193,7 @@ def battery_msg(b: dict) -> Any:
         return None
     ok = b.get("soc_ok", True)
     return BatteryDataWrapper(
-        b["id"], T0 + timedelta(seconds=b["id"]),
+        b["id"], T0 + timedelta(seconds=b.get("ts", b["id"])),
         soc=q("50") if ok else NAN, soc_lower_bound=q("10") if ok else NAN, soc_upper_bound=q("90") if ok else NAN,
         capacity=q("1000") if ok else NAN,
         power_inclusion_lower_bound=q(b["il"]), power_exclusion_lower_bound=q(b["el"]),
@@ -207,7 +207,7 @@ def inverter_msg(i: dict) -> Any:
     if not i["has"]:
         return None
     return InverterDataWrapper(
-        i["id"], T0 + timedelta(seconds=i["id"]),
+        i["id"], T0 + timedelta(seconds=i.get("ts", i["id"])),
         active_power_inclusion_lower_bound=q(i["il"]), active_power_exclusion_lower_bound=q(i["el"]),
         active_power_exclusion_upper_bound=q(i["eu"]), active_power_inclusion_upper_bound=q(i["iu"]),
     )
@@ -741,3 +741,65 @@ def run_c17_fullstack_adv(groups: list[dict]) -> Any:
 
     with mock.patch("frequenz.sdk.microgrid.connection_manager._CONNECTION_MANAGER", mg.mock_microgrid):
         return loop().run_until_complete(scenario())
+
+
+def run_c17_stream(steps: list[list[dict]]) -> list[Any]:
+    """The bounds STREAMED by one real `SendOnUpdate(PowerBoundsCalculator)` (its own asyncio tasks, virtual clock,
+    mocked API channels — what `BatteryPool._system_power_bounds` is made of) along a HISTORY of component data:
+    `steps[k]` = the battery sets with the data every component reports at sample k (same topology in every step).
+    At every sample each component sends its current message (changed or not, with the sample's timestamp); after the
+    update interval has elapsed the latest streamed value is read.  Returns one reading per step (`bounds_json`,
+    `None` = bounds absent, "nothing-streamed")."""
+    from frequenz.client.microgrid import Component, ComponentCategory, Connection, InverterType
+    from frequenz.sdk.timeseries.battery_pool._methods import SendOnUpdate
+    from frequenz.sdk.timeseries.battery_pool._metric_calculator import PowerBoundsCalculator
+    from tests.utils.mock_microgrid_client import MockMicrogridClient
+
+    groups = steps[0]
+    bats, invs = flat(groups)
+    comps = {Component(1, ComponentCategory.GRID), Component(2, ComponentCategory.METER)}
+    conns = {Connection(1, 2)}
+    for i in invs:
+        comps.add(Component(i["id"], ComponentCategory.INVERTER, InverterType.BATTERY))
+        conns.add(Connection(2, i["id"]))
+    for b in bats:
+        comps.add(Component(b["id"], ComponentCategory.BATTERY))
+    for i, b in group_edges(groups):
+        conns.add(Connection(i, b))
+    mg = MockMicrogridClient(comps, conns)
+    working = {b["id"] for b in bats if b["working"]}
+
+    async def scenario() -> list[Any]:
+        sou = SendOnUpdate(working, PowerBoundsCalculator(frozenset(b["id"] for b in bats)), timedelta(seconds=0.1))
+        readings: list[Any] = []
+        try:
+            await asyncio.sleep(1.0)
+            for k, gs in enumerate(steps):
+                bs, is_ = flat(gs)
+                for c in bs:
+                    if c["has"]:
+                        await mg.send(battery_msg({**c, "ts": 100 * (k + 1) + c["id"] % 50}))
+                for c in is_:
+                    if c["has"]:
+                        await mg.send(inverter_msg({**c, "ts": 100 * (k + 1) + c["id"] % 50}))
+                # first sample: wait for WAIT_FOR_COMPONENT_DATA_SEC; later ones: a few update intervals (< the
+                # fetchers' 2 s time-out, so no component counts as silent)
+                await asyncio.sleep(1.5 if k == 0 else 0.4)
+                rx = sou.new_receiver()  # `resend_latest`: starts with the latest streamed value
+                try:
+                    sb = await asyncio.wait_for(rx.receive(), 0.01)
+                except asyncio.TimeoutError:
+                    readings.append("nothing-streamed")
+                    continue
+                if sb.inclusion_bounds is None or sb.exclusion_bounds is None:
+                    readings.append(None)
+                else:
+                    readings.append(bounds_json(sb.inclusion_bounds.lower.as_watts(), sb.exclusion_bounds.lower.as_watts(),
+                                                sb.exclusion_bounds.upper.as_watts(), sb.inclusion_bounds.upper.as_watts()))
+            return readings
+        finally:
+            await sou.stop()
+
+    with mock.patch("frequenz.sdk.microgrid.connection_manager._CONNECTION_MANAGER", mg.mock_microgrid):
+        return loop().run_until_complete(scenario())
+
